@@ -47,6 +47,7 @@ namespace
         double fail_rate = 0; // informational: the faults themselves are attached to the ops
         int new_handler = 0; // process-wide std::new_handler during the run: 0 none, 1 returns on its first call per op then throws bad_alloc, 2 throws bad_alloc
     };
+    const char* VIANAME[4] = { "a.allocate(n)", "a.allocate(n, hint)", "allocator_traits::allocate(a, n)", "allocator_traits::allocate(a, n, hint)" };
     const char* NHNAME[3] = { "none", "returns_once_then_throws", "throws" };
 
     // the simulated application's new_handler (ambient process state an allocator may consult, like operator new does)
@@ -68,6 +69,7 @@ namespace
         uint32_t slot = 0;
         // allocate
         uint64_t n = 0;
+        int via = 0; // which public entry point asks: allocate(n) | allocate(n, hint) | allocator_traits::allocate(a, n) | (a, n, hint)
         std::string n_family;
         std::string fault; // "" | enomem_coin | enomem_after_k
         bool clobber = false;
@@ -288,6 +290,7 @@ namespace
                 {
                     op.kind = OP_ALLOCATE;
                     op.n = gen_n(rng, c, s, op.n_family);
+                    op.via = rng.chance(1, 2) ? 0 : 1 + (int)rng.below(3);
                     if (alloc_index++ == after_k)
                     {
                         op.fault = "enomem_after_k";
@@ -511,7 +514,7 @@ namespace
                     size_t live_before = h.live_blocks();
                     bool others_live = live_before > 0;
                     h.begin_call(op.fault.empty() ? 0 : (op.fail_mask ? op.fail_mask : 1), op.clobber);
-                    AllocResult r = c.allocate((size_t)op.n);
+                    AllocResult r = c.allocate((size_t)op.n, op.via);
                     unsigned __int128 bytes = (unsigned __int128)op.n * es;
                     bool representable = bytes <= (unsigned __int128)SIZE_MAX;
                     bool heap_refused = (h.injected_fired + h.capacity_fired) > 0;
@@ -903,7 +906,7 @@ namespace
                         continue; // do not really take gigabytes from the machine
                     AllocResult r;
                     {
-                        r = c.allocate((size_t)op.n);
+                        r = c.allocate((size_t)op.n, op.via);
                     }
                     log.rec("allocate", ci, op.n, r.p != nullptr, r.threw);
                     if (r.threw)
@@ -966,7 +969,7 @@ namespace
                 switch (op.kind)
                 {
                 case OP_ALLOCATE:
-                    j.set("n", (unsigned long long)op.n).set("family", op.n_family);
+                    j.set("n", (unsigned long long)op.n).set("family", op.n_family).set("via", VIANAME[op.via & 3]);
                     if (op.fault.empty())
                         j.set("fault", Value());
                     else
@@ -1032,6 +1035,12 @@ namespace
                 {
                     op.n = j.at("n").as_u64();
                     op.n_family = j.get_str("family", "");
+                    {
+                        std::string v = j.get_str("via", VIANAME[0]);
+                        for (int k = 0; k < 4; ++k)
+                            if (v == VIANAME[k])
+                                op.via = k;
+                    }
                     if (j.has("fault") && j.at("fault").type == Value::Object)
                     {
                         op.fault = j.at("fault").get_str("kind", "enomem_coin");
@@ -1147,6 +1156,12 @@ namespace
                             o3.clobber = false;
                             push_op(o3);
                         }
+                    }
+                    if (op.via)
+                    {
+                        Op o5 = op;
+                        o5.via = 0;
+                        push_op(o5);
                     }
                     for (uint64_t cand : { (uint64_t)1, op.n / 2, op.n - 1 })
                         if (cand < op.n)
